@@ -208,6 +208,8 @@ class Scenario(object):
         for j in range(ng):
             ops.append(['remove_group', j])
             ops.append(['set_state', j])
+        if self.comps and self.kind in ('base', 'scatter', 'histogram') and w.in_dc('d0'):
+            ops.append(['set_coords', 'd0'])       # (re-)assign coordinates to a dataset that may be on display
         if self.comps and w.in_dc('d0'):
             ops.append(['rm_comp', 'w'] if w.extra else ['add_comp', 'w'])
             ops.append(['reorder'])
@@ -271,6 +273,11 @@ class Scenario(object):
                 w.orphans = [o for o in w.orphans if o[1] is not g]
             elif k == 'set_state':
                 w.dc.subset_groups[op[1]].subset_state = w.cids['y'] < 3.5
+            elif k == 'set_coords':
+                from glue.core.coordinates import AffineCoordinates
+                d = w.pool[op[1]]
+                w.ncoords = getattr(w, 'ncoords', 0) + 1
+                d.coords = AffineCoordinates(np.array([[1.0 + w.ncoords % 2, 0.5], [0., 1.]]))
             elif k == 'add_comp':
                 w.pool['d0'].add_component(np.ones(w.shape), 'w')
                 w.extra = True
